@@ -240,8 +240,20 @@ func JSONEqual(a, b string) bool {
 	if strings.TrimSpace(b) == "" {
 		b = "{}"
 	}
-	var x, y any
-	if json.Unmarshal([]byte(a), &x) != nil || json.Unmarshal([]byte(b), &y) != nil {
+	// numbers are compared as written (json.Number), not through float64: 1234567890123456789
+	// and 1234567890123456800 are different arguments
+	dec := func(s string) (any, bool) {
+		d := json.NewDecoder(strings.NewReader(s))
+		d.UseNumber()
+		var v any
+		if d.Decode(&v) != nil {
+			return nil, false
+		}
+		return v, true
+	}
+	x, okx := dec(a)
+	y, oky := dec(b)
+	if !okx || !oky {
 		return false
 	}
 	bx, _ := json.Marshal(x)
